@@ -1033,6 +1033,64 @@ def part_seq(job):
     return p
 
 
+# ---- caller-owned array arguments ---------------------------------------------------------------------
+
+def part_alias(_):
+    """Commands that take vectors are given float64 numpy arrays (legal array-likes) which the caller keeps and passes
+    again: the arrays are the caller's (unchanged by the call) and the second packet decodes like the first."""
+    p = Partial()
+    env = get_env()
+    old_stdout = sys.stdout
+    sys.stdout = _Null()
+    try:
+        with warnings.catch_warnings(), np.errstate(all='ignore'):
+            warnings.simplefilter('ignore')
+            fs = base_args('commander.send_full_state_setpoint')
+            pos, vel, acc = (np.array(fs[0:3], dtype=np.float64), np.array(fs[3:6], dtype=np.float64),
+                             np.array(fs[6:9], dtype=np.float64))
+            quat = np.array(fs[9], dtype=np.float64)
+            ep = base_args('loc.send_extpose')
+            calls = [
+                ('commander.send_full_state_setpoint', fs, (pos, vel, acc, quat),
+                 lambda cf: cf.commander.send_full_state_setpoint(pos, vel, acc, quat, fs[10], fs[11], fs[12])),
+                ('loc.send_extpos', base_args('loc.send_extpos'), (np.array(base_args('loc.send_extpos'), dtype=np.float64),),
+                 None),
+                ('loc.send_extpose', ep, (np.array(ep[0:3], dtype=np.float64), np.array(ep[3:7], dtype=np.float64)), None),
+            ]
+            for cmd, args, arrays, call in calls:
+                if call is None:
+                    if cmd == 'loc.send_extpos':
+                        call = (lambda cf, a=arrays: cf.loc.send_extpos(a[0]))
+                    else:
+                        call = (lambda cf, a=arrays: cf.loc.send_extpose(a[0], a[1]))
+                snaps = [a.copy() for a in arrays]
+                for rnd in (1, 2, 3):
+                    env.fresh_commander()
+                    env.configure(9, None)
+                    del env.link.sent[:]
+                    del env.link.objs[:]
+                    try:
+                        call(env.cf)
+                        exc = None
+                    except Exception as e:  # noqa
+                        exc = e
+                    pkts = list(env.link.sent)
+                    probs, outcome, _ = judge(cmd, args, 9, None, exc, pkts)
+                    p.case(key=('alias', cmd, rnd), outcome=('alias', cmd, outcome))
+                    rp = {'part': 'alias', 'cmd': cmd}
+                    for sig, what in probs:
+                        p.violation('alias:call_%d_with_the_same_arrays:%s' % (min(rnd, 2), sig),
+                                    'call %d with the same float64 arrays: %s' % (rnd, what), rp)
+                    if any(not np.array_equal(a, b0) for a, b0 in zip(arrays, snaps)):
+                        p.violation('alias:caller_array_modified:%s' % cmd,
+                                    '%s was given float64 arrays %r; after the call they read %r' % (
+                                        cmd, [b0.tolist() for b0 in snaps], [a.tolist() for a in arrays]), rp)
+                        break
+    finally:
+        sys.stdout = old_stdout
+    return p
+
+
 # ---- headers ---------------------------------------------------------------------------------------
 
 def _hdr_ok(h, port, chan):
@@ -1179,7 +1237,8 @@ def _header_jobs():
 
 def _dispatch(job):
     kind, arg = job
-    return part_cmd(arg) if kind == 'cmd' else part_seq(arg) if kind == 'seq' else part_header(arg)
+    return (part_cmd(arg) if kind == 'cmd' else part_seq(arg) if kind == 'seq' else part_alias(arg) if kind == 'alias'
+            else part_header(arg))
 
 
 def run(ck):
@@ -1212,7 +1271,8 @@ def run(ck):
     ck.assume('fixed-point fields: |wire - value*1000| < 1 unit; physical unit of the full-state rates is not judged')
     jobs, notes = _jobs(ck.tier)
     sjobs, nseq, _ = seq_jobs(ck.tier)
-    alljobs = [('cmd', j) for j in jobs] + [('hdr', j) for j in _header_jobs()] + [('seq', j) for j in sjobs]
+    alljobs = ([('cmd', j) for j in jobs] + [('hdr', j) for j in _header_jobs()] + [('seq', j) for j in sjobs]
+               + [('alias', None)])
     ck.note('command_sequences_on_one_object', nseq)
     ck.pmap(_dispatch, alljobs)
     ck.exhaustive = True
@@ -1238,6 +1298,12 @@ def replay(ck, data):
         _hdr_case(p, Env(), data['how'], prev, data['port'], data['chan'])
         print('header case %r -> %s' % (data, 'ok' if not p.violations else p.violations[0]['what']))
         for v in p.violations:
+            ck.violation(v['sig'], v['what'], data)
+        return
+    if data.get('part') == 'alias':
+        p = part_alias(None)
+        for v in p.violations:
+            print('  VIOLATES %s: %s' % (v['sig'], v['what']))
             ck.violation(v['sig'], v['what'], data)
         return
     if data.get('part') == 'seq':
